@@ -183,8 +183,12 @@ def run_history(case):
         return dict(viol=viol, states=len(nontrivial), transitions=ntrans, traces=len(nontrivial), nontrivial=nontrivial, outcomes=[f"object-histories={len(nontrivial)}"], sample=dict(case=key, schemes=len(specs)), digest=f"{len(nontrivial)}/{len(viol)}")
     # every ordered pair of constructions over all scheme classes: the rule constructed FIRST is kept alive and looked at again
     # after the second construction (region templates keep one rule object for the whole process)
-    specs = [("GaussLegendre", dict(order=1, dim=2)), ("GaussLegendre", dict(order=2, dim=3)), ("GaussLegendreBoundary", dict(order=1, dim=3)), ("GaussLobatto", dict(order=1, dim=2)),
-             ("GaussLobatto", dict(order=2, dim=3))] + [("Triangle", dict(order=o)) for o in (1, 2, 3, 5)] + [("Tetrahedron", dict(order=o)) for o in (1, 2, 3, 5)] + [("BazantOh", dict(n=21))]
+    specs = [("GaussLegendre", dict(order=1, dim=2)), ("GaussLegendre", dict(order=2, dim=3)), ("GaussLegendre", dict(order=2, dim=1)), ("GaussLegendreBoundary", dict(order=1, dim=3)), ("GaussLobatto", dict(order=1, dim=2)),
+             ("GaussLobatto", dict(order=2, dim=3)), ("GaussLobatto", dict(order=2, dim=1)), ("GaussLobattoBoundary", dict(order=2, dim=2))] + [("Triangle", dict(order=o)) for o in (1, 2, 3, 5)] + [("Tetrahedron", dict(order=o)) for o in (1, 2, 3, 5)] + [("BazantOh", dict(n=21))]
+    refs = {}
+    for sp in specs:
+        q0 = _make(sp)
+        refs[repr(sp)] = (np.array(q0.points, dtype=float, copy=True), np.array(q0.weights, dtype=float, copy=True))
     for sa in specs:
         for sb in specs:
             qa = _make(sa)
@@ -194,6 +198,18 @@ def run_history(case):
             lab = f"{sa[0]}{sa[1]} then {sb[0]}{sb[1]}"
             if not (np.array_equal(np.asarray(qa.points, float), Pa) and np.array_equal(np.asarray(qa.weights, float), Wa)):
                 bad(lab + "/first-changed", "constructing another rule changed the points / weights of an existing rule object", dict(points=float(np.abs(np.asarray(qa.points, float) - Pa).max()), weight_sum=float(np.sum(qa.weights))), "unchanged")
+            # the owner of a rule may rescale ITS arrays in place (e.g. map [-1, 1] to [0, 1]); rules constructed afterwards are
+            # the tabulated ones
+            try:
+                qa.weights *= 0.5
+                qa.points *= 0.25
+            except (ValueError, TypeError):
+                pass
+            qc = _make(sb)
+            ntrans += 1
+            Pb, Wb = refs[repr(sb)]
+            if not (np.array_equal(np.asarray(qc.points, float), Pb) and np.array_equal(np.asarray(qc.weights, float), Wb)):
+                bad(lab + "/after-owner-rescaled", "a rule constructed after the owner of ANOTHER rule object rescaled its arrays in place differs from the tabulated rule", dict(weight_sum=float(np.sum(qc.weights))), dict(weight_sum=float(Wb.sum())))
             nontrivial.append(lab)
     cfgs = [(o, d, pm) for o in (1, 2, 3, 4) for d in (1, 2, 3) for pm in (False, True)]
     for a in cfgs:
